@@ -136,7 +136,9 @@ class OnDiskBlock:
 
             if count:
                 offsets.append(base_offset + cursor)
-                base_offset += cursor
+            # raw[cursor:] is kept below, so cursor bytes are consumed even if no transaction
+            # was complete (in the first chunk cursor is then the length of the tx count)
+            base_offset += cursor
             tx_count -= count
             if tx_count == 0:
                 return offsets
